@@ -25,6 +25,39 @@ RULES = {
     ),
 }
 
+_B_COMMON = (
+    "Each run is one call of the real fit_to_data / fit_to_variational_target on a real flowjax model drawn from a zoo "
+    "(direct bijections inside Transformed, named families, coupling / masked-autoregressive / planar flows, chains, a "
+    "two-level-vmapped scan of spline layers; dims 1-4; everything constructible in this sandbox), with a real flowjax loss "
+    "and a real optax optimiser (sgd, adam, adamw, rmsprop, clip+adam) inside an observing wrapper that records the "
+    "parameters and gradients of every step and injects the scheduled faults. NON-TRIVIAL: >=2 gradient steps recorded and no "
+    "crash; DISTINCT by signature (model structure, freeze plan, loop, loss, optimiser, steps recorded, multiset of fired "
+    "faults, fault-row symbols, return_best, set of constraint kinds evaluated). "
+)
+RULES.update({
+    "C12": _B_COMMON + "C12 worlds add a seeded freeze plan (0-4 nodes wrapped by NonTrainable(subtree) or non_trainable(subtree), "
+    "including whole base distribution / bijection / single arrays / everything) and optimiser faults (teleport of every offered "
+    "leaf, gradient NaN/inf/x1e6, zero and sign-flipped updates). Checked: frozen and non-float leaves bit-identical in every "
+    "recorded state and in the returned model; returned structure; on state 0, sampled snapshots and the returned model: unwrap "
+    "leaves no wrapper, is idempotent, every method agrees between model and unwrap(model), frozen leaves get exactly zero gradient.",
+    "C11": _B_COMMON + "C11 worlds emphasise teleport faults into the raw box (|raw|<=50; 5 for planar). Checked on state 0, "
+    "sampled snapshots and the returned model (finite states only): scales, triangular diagonals, df > 0; masked triangle == 0; "
+    "mixture weights normalised; spline knots strictly increasing with exact interval ends and derivatives >= min_derivative (also "
+    "for transformers built by coupling/autoregressive conditioners at probe inputs); layers strictly increasing; default affine "
+    "transformer scale >= min_scale; planar 1 + w.u_hat > 0. State 0 of named families: accessors reproduce constructor arguments "
+    "drawn log-uniformly in 1e-6..1e6 (half of the named worlds) or 1e-2..1e2.",
+    "C09": _B_COMMON + "C09 worlds are masked-autoregressive and coupling flows (dim 1-4, width 1-5 incl. width<dim, depth 0-2, "
+    "conditional or not, affine or spline transformer, both orientations) trained with teleport faults so masked-out raw weights take "
+    "large values of both signs. Checked per layer on state 0, sampled snapshots and the returned model: strictly-upper Jacobian "
+    "triangle exactly 0 (MAF); transformer parameters of output i independent of x_j, j>=i; coupling first block bit-identical and no "
+    "cross dependency between transformed coordinates.",
+    "C18": _B_COMMON + "C18 worlds train by maximum likelihood (sgd/adam) on data containing injected fault rows whose coordinates "
+    "sit exactly on values the code branches on (spline interval ends and knots, +-max_val, tanh(max_val), +-1, +-0), their float "
+    "neighbours, out-of-interval values and magnitudes 1e2 (1e4 for shallow models). Checked on every step: parameters finite => loss "
+    "not NaN; loss finite => every gradient leaf finite; finite loss and gradients => next parameters finite; all losses finite => "
+    "returned parameters finite.",
+})
+
 ASSUMPTIONS = {
     "C15": [
         "ordered io_callback delivers events in program order (jax guarantee); jax.effects_barrier() flushes them",
@@ -41,10 +74,35 @@ ASSUMPTIONS = {
     ],
 }
 
-NOT_EXERCISED = {}
+_B_ASSUME = [
+    "ordered io_callback delivers events in program order; per-step snapshots are the parameters offered to the optimiser",
+    "states with a non-finite leaf are outside the properties' quantifier (finite raw values) and are skipped and counted (vacuous_* probes)",
+    "seeded sampling of models, schedules and faults, not enumeration",
+    "the static (non-array) part of a model is shared between runs of one structure so compiled programs are re-used; it holds no seed-dependent value",
+]
+ASSUMPTIONS.update({
+    "C12": _B_ASSUME + ["method equality is evaluated inside one jitted program per structure (tolerance 1e-6 as a guard)"],
+    "C11": _B_ASSUME + ["planar invertibility is checked only when |w.u| <= 50 (float32 softplus/log1p saturate beyond; the property's raw box is about single raw values, the planar argument is a product)"],
+    "C09": _B_ASSUME + ["a NaN Jacobian entry carries no dependency information (C18's subject): counted as vacuous, never failed"],
+    "C18": _B_ASSUME + ["scope is the training-poison clause: gradients w.r.t. parameters along maximum-likelihood training; magnitudes capped at 1e2 for multi-layer flows (float32 overflow is not the property's subject)"],
+})
+
+NOT_EXERCISED = {
+    "C09": ["BlockAutoregressiveNetwork / BNAF (WeightNormalization cannot be constructed under the installed equinox)",
+            "'no permitted dependency is missing when width >= dim' and the mask helper patterns (pure functions of sizes)"],
+    "C11": ["weight-normalised rows keep their norm parameter (WeightNormalization unconstructible here)",
+            "rejection of invalid constructor arguments (single pure call)"],
+    "C12": ["WeightNormalization nesting (unconstructible here)", "unwrap of arbitrary pytrees beyond the zoo's shapes",
+            "vmapped-constructed wrapper == stack of individually constructed ones (pure)"],
+    "C18": ["gradients w.r.t. the input; log_prob at arbitrary single points outside a training run (pure)", "BNAF log-space accumulation (unconstructible)"],
+}
 
 # probes that a full-budget batch must reach (checked by `selftest reach`)
 REQUIRED_PROBES = {
+    "C12": ["has_frozen", "frozen_strict_subset", "all_frozen", "freeze_NT_subtree", "freeze_fn_leaves", "trainable_moved", "teleport_fired", "frozen_grad_leaves_checked", "states_checked"],
+    "C11": ["ctor_roundtrips", "states_checked", "teleport_fired", "sig_scale_min", "sig_tri_diag_min", "sig_df_min", "sig_mix_lse_absmax", "sig_spline_x_mindiff", "sig_planar_margin"],
+    "C09": ["maf_nodes", "coupling_nodes", "states_checked", "teleport_fired", "sig_cond"],
+    "C18": ["fault_rows", "fault_row_batches", "finite_loss_with_fault_row", "poison_checks", "inf_loss_batches", "clean_run"],
     "C15": ["batch_1", "batch_gt_n", "cond", "remainder_skipped", "val_single_batch", "perm_seam_checked"],
     "C16": ["early_stop_hit", "best_not_last", "best_not_first", "tie_at_min", "nan_in_val", "inf_in_val", "max_epochs_0",
             "patience_0", "multi_val_batches", "multi_train_batches", "vi_steps_0", "nan_in_losses", "inf_in_losses", "ran_to_max"],
